@@ -85,7 +85,7 @@ func RunC02(r *core.Run) {
 		}
 		runEnumFamily(r, f, modeResume, 0xC02)
 	}
-	n := r.Pick(120000, 4000000)
+	n := r.Pick(300000, 8000000)
 	r.Stage("long-values", n, func(w *core.Worker, idx int64) {
 		rr := core.NewRand(r.Seed, 0xC02, 9, uint64(idx))
 		p := Parsers[1+rr.Intn(len(Parsers)-1)]
@@ -112,7 +112,7 @@ func RunC03(r *core.Run) {
 	}
 	// targeted: the mechanisms the anchors name, on long inputs with hostile suffixes
 	suffixes := []string{" x", "\tx", "\r", "\n", "\r\n", "\r\n x", "\r\nx", "1", "\"", ";", ",", "From: a\r\n", "\r\n\r\n", "junk", ":", "\r\r", "\n\n x"}
-	n := r.Pick(80000, 3000000)
+	n := r.Pick(300000, 8000000)
 	r.Stage("long-inputs+suffix-pool", n, func(w *core.Worker, idx int64) {
 		rr := core.NewRand(r.Seed, 0xC03, 9, uint64(idx))
 		p := Parsers[rr.Intn(len(Parsers))]
@@ -142,7 +142,7 @@ func RunC03(r *core.Run) {
 		}
 	})
 	// framed bodies: exactly n-1 / n / n+1 bytes available
-	r.Stage("message-body-boundary", r.Pick(20000, 400000), func(w *core.Worker, idx int64) {
+	r.Stage("message-body-boundary", r.Pick(100000, 2000000), func(w *core.Worker, idx int64) {
 		rr := core.NewRand(r.Seed, 0xC03, 10, uint64(idx))
 		m := gen.Msg(rr, gen.MsgOpts{MinHdrs: 1, MaxHdrs: 6, CLenMode: 2 + rr.Intn(3), MaxBody: 12})
 		b := append(append([]byte(nil), m.Raw...), "INVITE sip:next SIP/2.0\r\n"[:rr.Intn(20)]...)
